@@ -1,0 +1,19 @@
+//go:build verif
+
+// Contracts for the verification machinery in /verif (govc). Comment-only file.
+
+package ethnode
+
+// Pure string helpers: callers see them as uninterpreted functions of their arguments.
+
+//@ func (NodeKind).String
+//@ opaque
+
+//@ func (NetworkID).String
+//@ opaque
+
+//@ func (*UserAgent).KindType
+//@ opaque
+
+//@ func ParseNodeKind
+//@ opaque
